@@ -254,6 +254,18 @@ static Verdict c09_check(const KV &c, Ctx &ctx) {
     nd.add_hashed_key(key, "key ");
     std::string pn;
     Bytes img1, img2;
+    // The stack layer applies to the primitives that promise to erase their temporaries (the SHA-256 family: tmp32,
+    // pad, khash, ihash, tmp8, U, T); the other digests only promise to erase their context.  HMAC-SHA1 wipes its own
+    // temporaries (tk, k_ipad, k_opad) but runs on a SHA-1 whose transform does not wipe its message schedule: for it
+    // only the forms HMAC itself creates are looked for, not byte-swapped words.  Each entry form (streaming, one-shot)
+    // runs on its own freshly poisoned stack: a later call would overwrite what an earlier one left behind.
+    const bool stack_layer = prim == 3 || prim == 7 || prim == 8 || prim == 10;
+    std::string stack_hit;
+    auto note_stack = [&](const char *form) {
+      if (!stack_layer || !stack_hit.empty()) return;
+      std::string hs = scan_stack(nd, prim == 7);
+      if (!hs.empty()) stack_hit = hs + ", " + form;
+    };
     auto run = [&](const Bytes &m, Bytes &img) {
       if (prim < VFP_NDIGEST) {
         size_t cs = vfp_ctx_size(prim);
@@ -266,24 +278,32 @@ static Verdict c09_check(const KV &c, Ctx &ctx) {
           vfp_update(prim, cx, m.data(), half);
           vfp_update(prim, cx, m.data() + half, m.size() - half);
           vfp_final(prim, cx, out);
-          if (prim == VFP_SHA256) vfp_buf(prim, m.data(), m.size(), out);  // one-shot form: its context lives on the stack
         });
+        note_stack("Init/Update/Final");
         img.assign((char *)cx, cs);
         free(cx);
+        if (prim == VFP_SHA256) {
+          // one-shot form: its context lives on the stack
+          on_poisoned_stack([&]() { vfp_buf(prim, m.data(), m.size(), out); });
+          note_stack("one-shot Buf");
+        }
       } else if (prim == 7) {
         unsigned char out[20];
         on_poisoned_stack([&]() { vfp_hmac_sha1((const unsigned char *)m.data(), m.size(), (const unsigned char *)key.data(), key.size(), out); });
+        note_stack("one-shot");
       } else if (prim == 8) {
         size_t cs = vfp_hmac256_ctx_size();
         void *cx = malloc(cs);
         memset(cx, 0x77, cs);
         unsigned char out[32];
+        on_poisoned_stack([&]() { vfp_hmac256_buf(key.data(), key.size(), m.data(), m.size(), out); });
+        note_stack("one-shot Buf");
         on_poisoned_stack([&]() {
-          vfp_hmac256_buf(key.data(), key.size(), m.data(), m.size(), out);
           vfp_hmac256_init(cx, key.data(), key.size());
           vfp_hmac256_update(cx, m.data(), m.size());
           vfp_hmac256_final(cx, out);
         });
+        note_stack("Init/Update/Final");
         img.assign((char *)cx, cs);
         free(cx);
       } else if (prim == 9) {
@@ -299,20 +319,14 @@ static Verdict c09_check(const KV &c, Ctx &ctx) {
       } else {
         unsigned char out[64];
         on_poisoned_stack([&]() { vfp_pbkdf2_sha256((const unsigned char *)key.data(), key.size(), (const unsigned char *)m.data(), m.size() % 100, 2, out, 48); });
+        note_stack("one-shot");
       }
     };
     static const char *PN[] = {"MD4", "MD5", "SHA-1", "SHA-256", "SHA-512", "Streebog-256", "Streebog-512", "HMAC-SHA1", "HMAC-SHA256", "HMAC-Streebog-256", "PBKDF2-HMAC-SHA256"};
     pn = PN[prim];
     run(m1, img1);
     ctx.st.executed++;
-    // The stack layer applies to the primitives that promise to erase their temporaries (the SHA-256 family:
-    // tmp32, pad, khash, ihash, tmp8, U, T).  The other primitives only promise to erase their context.
-    // HMAC-SHA1 wipes its own temporaries (tk, k_ipad, k_opad) but runs on a SHA-1 whose transform does not wipe its
-    // message schedule: for it only the forms HMAC itself creates are looked for, not byte-swapped words.
-    if (prim == 3 || prim == 7 || prim == 8 || prim == 10) {
-      std::string hs = scan_stack(nd, prim == 7);
-      if (!hs.empty()) return "C09 " + pn + " leaves a copy of its input (" + hs + ") on the stack [len=" + std::to_string(len) + " keylen=" + std::to_string(key.size()) + "]";
-    }
+    if (!stack_hit.empty()) return "C09 " + pn + " leaves a copy of its input (" + stack_hit + ") on the stack [len=" + std::to_string(len) + " keylen=" + std::to_string(key.size()) + "]";
     if (!img1.empty()) {
       std::string hc = nd.scan((const unsigned char *)img1.data(), img1.size());
       if (!hc.empty()) return "C09 " + pn + " context still holds its input after finalisation (" + hc + ") [len=" + std::to_string(len) + "]";
